@@ -449,8 +449,9 @@ pub fn run(tier: &str) -> i32 {
         "single-byte alterations inside the used part of the active journal; multi-byte damage is not enumerated".into(),
         "a recovery that fails (error or panic) is an allowed outcome of damage and is counted separately".into(),
     ];
-    if rt_to || dm_to {
-        o.machinery_errors.push("time cap hit before the enumeration finished".into());
+    let required_damage = jobs.iter().filter(|j| j.0 < 2).count();
+    if rt_to || dm_done < required_damage {
+        o.machinery_errors.push(format!("time cap hit before the required core finished (round trip complete: {}, damage cases {dm_done}/{required_damage} required)", !rt_to));
     }
     let mut f = findings.into_inner().unwrap();
     f.sort_by_key(|x| (x.sig.clone(), x.variant["offset"].as_u64().unwrap_or(0)));
